@@ -740,6 +740,40 @@ func init() {
 	}
 	I["internal/stringslite.Clone"] = func(g *G, a []Value, pos token.Pos) Value { return a[0] }
 	I["strings.Clone"] = func(g *G, a []Value, pos token.Pos) Value { return a[0] }
+	I["internal/bytealg.CountString"] = func(g *G, a []Value, pos token.Pos) Value {
+		s := argStr(a[0])
+		c := byte(a[1].(IntV).C)
+		n := 0
+		for i := 0; i < len(s); i++ {
+			if s[i] == c {
+				n++
+			}
+		}
+		return mkInt(uint64(n))
+	}
+	I["internal/bytealg.Count"] = func(g *G, a []Value, pos token.Pos) Value {
+		n := 0
+		c := a[1].(IntV)
+		for _, b := range a[0].([]Value) {
+			eq := g.equals(types.Typ[types.Uint8], b, c)
+			if (eq.S == nil && eq.C) || (eq.S != nil && g.branch(eq.S, "count")) {
+				n++
+			}
+		}
+		return mkInt(uint64(n))
+	}
+	I["internal/bytealg.IndexString"] = func(g *G, a []Value, pos token.Pos) Value {
+		return mkInt(uint64(int64(strings.Index(argStr(a[0]), argStr(a[1])))))
+	}
+	I["internal/bytealg.Compare"] = func(g *G, a []Value, pos token.Pos) Value {
+		x, y := mkStr(a[0].([]Value)), mkStr(a[1].([]Value))
+		xs, ok1 := x.(string)
+		ys, ok2 := y.(string)
+		if !ok1 || !ok2 {
+			panic(unsupported("bytes.Compare on symbolic bytes"))
+		}
+		return mkInt(uint64(int64(strings.Compare(xs, ys))))
+	}
 	I["strings.ToLower"] = func(g *G, a []Value, pos token.Pos) Value { return strings.ToLower(argStr(a[0])) }
 	I["strings.ToUpper"] = func(g *G, a []Value, pos token.Pos) Value { return strings.ToUpper(argStr(a[0])) }
 	I["strings.TrimSpace"] = func(g *G, a []Value, pos token.Pos) Value { return strings.TrimSpace(argStr(a[0])) }
